@@ -262,6 +262,9 @@ bloc::Value * UTF8Plugin::executeMethod(
     bloc::Value& a0 = args[0]->value(ctx);
     if (a0.isNull())
       throw RuntimeError(EXC_RT_OTHER_S, "Invalid arguments.");
+    /* the position must be in the range of the content */
+    if (*a0.integer() < 0 || (size_t)*a0.integer() >= u->Size())
+      throw RuntimeError(EXC_RT_INDEX_RANGE_S, a0.toString().c_str());
     return new bloc::Value(bloc::Integer(u->operator[](*a0.integer())));
   }
 
